@@ -1,6 +1,7 @@
 import SeqIoModel.Model.Fmt
 import SeqIoModel.Model.Spec
 import SeqIoModel.Model.Write
+import SeqIoModel.Model.Utf8
 import SeqIoModel.Model.ParallelCheck
 /-!
 # Model driver: line protocol
@@ -100,6 +101,15 @@ def idStr : Option (List UInt8) → String
   | none => "-"
   | some l => "=" ++ hexOf l
 
+/-- id / description bytes and the verdicts of `id()`, `desc()`, `id_desc()` (plus "all agree") -/
+def idDescStr (h : List UInt8) : String :=
+  let id := idBytes h
+  let d := descBytes h
+  let b (x : Bool) : String := if x then "1" else "0"
+  let vd := match d with | some x => validUtf8 x | none => true
+  s!"i={hexOf id}:d=" ++ (match d with | some x => "~" ++ hexOf x | none => "-") ++
+    ":v=" ++ b (validUtf8 id) ++ b vd ++ b (validUtf8 h) ++ "1"
+
 def logStr (log : List (Nat × Option Nat)) : String :=
   ",".intercalate (log.map fun (c, a) => s!"{c}>" ++ (match a with | some n => toString n | none => "x"))
 
@@ -123,7 +133,7 @@ def recStr (buf : List UInt8) (bp : BufPos) : Option String := do
   let raw ← seqRaw buf bp
   let u ← writeUnchanged buf bp
   let n := numSeqLines bp
-  some s!"h={hexOf h}:l={linesStr ls}:r={hexOf raw}:n={n}:b={if n = 1 then 1 else 0}:u={hexOf u}"
+  some (s!"h={hexOf h}:l={linesStr ls}:r={hexOf raw}:n={n}:b={if n = 1 then 1 else 0}:u={hexOf u}:" ++ idDescStr h)
 
 def ownedStr (buf : List UInt8) (bp : BufPos) : Option String := do
   let h ← head buf bp
@@ -237,7 +247,7 @@ def recStr (buf : List UInt8) (bp : BufPos) : Option String := do
   let s ← seq buf bp
   let q ← qual buf bp
   let u ← writeUnchanged buf bp
-  some s!"h={hexOf h}:s={hexOf s}:q={hexOf q}:u={hexOf u}"
+  some (s!"h={hexOf h}:s={hexOf s}:q={hexOf q}:u={hexOf u}:" ++ idDescStr h)
 
 def ownedStr (buf : List UInt8) (bp : BufPos) : Option String := do
   let h ← head buf bp
